@@ -144,10 +144,12 @@ def maxrep_histories(rng, env, n):
             if k < 0.4:
                 calls.append(("getbulk", None))
             elif k < 0.8:
-                calls.append(("getbulk", rng.choice([1, 2, 7, 50, 128, 255, 1000])))
+                calls.append(("getbulk", rng.choice([0, 1, 2, 7, 50, 128, 255, 1000])))   # 0 = "not given": the default
             else:
                 calls.append(("fetch", None))
-        want = [mr if mr is not None else default for _, mr in calls]
+        # (every history has one call that passes 0 explicitly, at a random position)
+        calls.insert(rng.randrange(len(calls) + 1), ("getbulk", 0))
+        want = [mr if mr else default for _, mr in calls]
         desc = f"default max_repetitions {default}, calls {[(c, m) for c, m in calls]}"
         for mode in ("sync", "async"):
             seen = []
